@@ -56,7 +56,7 @@ def retry_loop_rule(ck, u, eng, fname, paths, base_param, total_param):
     if not exits:
         return ck.violation('C17.a', fname + ':complete', where,
                             'the transfer loop has no exit for a completed request: after the last octet the driver is called again with nothing left to move')
-    nprog = nretry = nerr = 0
+    nprog = nretry = nerr = norem = 0
     for p in iters:
         tc = transfer_calls(p)
         if len(tc) != 1:
@@ -68,12 +68,13 @@ def retry_loop_rule(ck, u, eng, fname, paths, base_param, total_param):
         # remaining counter = loop-carried variable with a pre-loop value equal to total
         rem = [k for k, (h, pre) in lmap.items() if pre == total]
         if len(rem) != 1:
-            if not lmap:
+            unchanged = all(strip_cast(p.mem.get(k, h)) == h for k, (h, pre) in lmap.items() if pre is not None)
+            if p.end == 'loopback' and unchanged and eng.entails(p, -L(e.result)):
                 ck.violation('C17.c', fname + ':progress', where,
                              'a successful transfer changes nothing in the loop state: the remaining count is never reduced, the same region is transferred again and again')
-            else:
-                ck.broken('C17.b', fname + ':counter', where, 'cannot identify the remaining-count variable')
-            return
+                return
+            norem += 1
+            continue
         rk = rem[0]
         h_r = lmap[rk][0]
         pos = position(e.args[pi])
@@ -136,6 +137,8 @@ def retry_loop_rule(ck, u, eng, fname, paths, base_param, total_param):
                    'transfer position %s advances in step with the moved count (start at %s)' % (fmt(pos), base_param) if oka and ok0 else
                    'after %s octets moved the next transfer is again at %s: position advances by %s, not by the moved count (octets are overwritten / re-sent)'
                    % (fmt(res), fmt(pos1), adv))
+    if norem:
+        return ck.broken('C17.b', fname + ':counter', where, 'cannot identify the remaining-count variable')
     for p in exits:
         lmap = p.loops[-1][1]
         rem = [h for k, (h, pre) in lmap.items() if pre == total]
